@@ -120,9 +120,9 @@ class Evaluator:
         ctx.count("reference.classes", len(ref_cl))
         ctx.maximum("reference.classes_max", len(ref_cl))
         ctx.count("programs.%s" % case["pop"])
-        if ref.ended_unlogged:
-            raise core.HarnessFailure("C40: %d execution(s) that the checker completed on '%s' were not logged by the application"
-                                      % (ref.ended_unlogged, case["name"]))
+        if ref.join_inconsistent:
+            raise core.HarnessFailure("C40: %d execution(s) that the unreduced DFS exploration completed on '%s' have no record "
+                                      "of the application with the same trace" % (ref.ended_unlogged, case["name"]))
         if len(ref_cl) >= 2 and nref > len(ref_cl):
             ctx.nontrivial(case["spec"])
         if len(ctx.samples) < ctx.max_samples:
@@ -143,8 +143,8 @@ class Evaluator:
             done = res.complete()
             ctx.count("runs.%s" % cfg.name())
             ctx.count("executions.odpor", len(done))
-            if res.ended_unlogged:
-                ctx.count("executions.completed_but_not_logged", res.ended_unlogged)
+            if res.join_inconsistent:
+                ctx.count("runs.checker_traces_do_not_match.%s" % cfg.explorer)
             if res.unacked:
                 ctx.count("terminal_states.reached_but_not_explored", res.unacked)
             cl = mc_red.explored_classes(res)
@@ -186,13 +186,13 @@ class Evaluator:
 def generate(ctx):
     cases = [{"name": "d-" + n, "spec": s, "pop": "directed", "pinned": pin} for n, s, pin in DIRECTED]
     quick = ctx.tier == "quick"
-    ncore = ctx.size(quick=12, thorough=200)
+    ncore = ctx.size(quick=10, thorough=200)
     ncomm = ctx.size(quick=6, thorough=90)
     max_paths = 80 if quick else 1200
     bound = 120 if quick else 2500
     for i in range(ncore):
         rng = ctx.sub_rng("core", i)
-        p, _ = mcprog2.core(rng, max_paths, want_failure=False)
+        p, _ = mcprog2.core(rng, max_paths, want_failure=False, clean=(i % 2 == 0))
         cases.append({"name": "core%d" % i, "spec": mcprog2.text(p), "pop": "core"})
     exts = ["wait", "test", "waitany"]
     for i in range(ncomm):
